@@ -36,4 +36,12 @@ CheckOK(e) == /\ EveryFileReported(e) /\ NoSilentDrop(e) /\ AllFunctionsListed(e
               /\ UnanalysableHaveErrors(e) /\ StrictFails(e)
 \* scan: every function of every analysable file is scanned at least once
 ScanOK(e) == e.scanned >= Cardinality(SeqSet(e.oracle)) /\ e.exit = 0
+\* "scanned at least once", observably: after every file has been indexed (signatures named after
+\* file and function), a scan of the tree must alert, with full confidence, for each named function
+\* on one of ITS OWN signatures
+SelfScanOK(e) ==
+  \A i \in DOMAIN e.expected :
+     \E j \in DOMAIN e.alerts : /\ e.alerts[j].fn = e.expected[i].fn
+                                /\ e.alerts[j].sig \in SeqSet(e.expected[i].sigs)
+                                /\ e.alerts[j].conf = 1000000000
 =============================================================================
